@@ -50,6 +50,11 @@ class CompoundTensorOperator(Operator):
 
     def __init__(self, operands):
         """Initialise."""
+        if any(o is self for o in operands):
+            # A shortcut in __new__ returned one of the operands, which
+            # is an existing node of this class: Python calls __init__
+            # on it again, don't replace its operands by itself
+            return
         Operator.__init__(self, operands)
 
 
